@@ -268,6 +268,41 @@ func nary(op Op, in []*Term) *Term {
 	if len(out) == 1 {
 		return out[0]
 	}
+	// complement absorption: or(not a, and(a, X)) = or(not a, X)  (and dually)
+	if len(out) <= 24 {
+		changed := false
+		var out3 []*Term
+		for _, t := range out {
+			if t.op == dual && len(t.args) <= 24 {
+				var keep []*Term
+				for _, a := range t.args {
+					neg := false
+					if a.op == OpNot {
+						neg = seen[a.args[0]]
+					} else {
+						for _, u := range out {
+							if u.op == OpNot && u.args[0] == a {
+								neg = true
+								break
+							}
+						}
+					}
+					if !neg {
+						keep = append(keep, a)
+					}
+				}
+				if len(keep) != len(t.args) {
+					changed = true
+					out3 = append(out3, nary(dual, keep))
+					continue
+				}
+			}
+			out3 = append(out3, t)
+		}
+		if changed {
+			return nary(op, out3)
+		}
+	}
 	// factoring: or(and(C,x), and(C,y)) = and(C, or(x,y))  (and dually); makes diamond joins collapse to the dominator guard
 	if len(out) >= 2 && len(out) <= 16 {
 		conj := func(t *Term) []*Term {
